@@ -143,12 +143,17 @@ class SSHChannel(log.Logger):
             b = self.extBuf
             self.extBuf = []
             # A pending loseConnection() must not close the channel after
-            # the first entry: the entries after it would be dropped.  Try
-            # to close only once all of them have been written again.
-            closing, self.closing = self.closing, 0
+            # the first entry, and stopWriting() must not run while the
+            # entries after it are not back in the buffer: the entries after
+            # it would be dropped or overtaken.  Do both only once all of
+            # them have been written again.
+            windowFull = False
             for type, data in b:
-                self.writeExtended(type, data)
-            if closing:
+                if self._writeExtended(type, data):
+                    windowFull = True
+            if windowFull:
+                self.stopWriting()
+            if self.closing:
                 self.loseConnection()
 
     def requestReceived(self, requestType, data):
@@ -220,13 +225,13 @@ class SSHChannel(log.Logger):
             self.buf += data
             return
         top = len(data)
-        if top > self.remoteWindowLeft:
+        windowFull = top > self.remoteWindowLeft
+        if windowFull:
             data, self.buf = (
                 data[: self.remoteWindowLeft],
                 data[self.remoteWindowLeft :],
             )
             self.areWriting = 0
-            self.stopWriting()
             top = self.remoteWindowLeft
         rmp = self.remoteMaxPacket
         write = self.conn.sendData
@@ -234,6 +239,10 @@ class SSHChannel(log.Logger):
         for offset in r:
             write(self, data[offset : offset + rmp])
         self.remoteWindowLeft -= top
+        if windowFull:
+            # Only now: a stopWriting() that writes to this channel again
+            # must see the window as it is after this write.
+            self.stopWriting()
         if self.closing and not self.buf:
             self.loseConnection()  # try again
 
@@ -246,19 +255,35 @@ class SSHChannel(log.Logger):
         @type dataType: L{int}
         @type data:     L{bytes}
         """
+        if self._writeExtended(dataType, data):
+            # Only now: a stopWriting() that writes to this channel again
+            # must see the window as it is after this write.
+            self.stopWriting()
+        if self.closing:
+            self.loseConnection()  # try again
+
+    def _writeExtended(self, dataType, data):
+        """
+        Send as much of some extended data as the remote window allows and
+        buffer the rest, without telling the application to stop writing and
+        without retrying a pending close.
+
+        @return: C{True} if the remote window was used up by this data.
+        @rtype: L{bool}
+        """
         if self.extBuf:
             if self.extBuf[-1][0] == dataType:
                 self.extBuf[-1][1] += data
             else:
                 self.extBuf.append([dataType, data])
-            return
-        if len(data) > self.remoteWindowLeft:
+            return False
+        windowFull = len(data) > self.remoteWindowLeft
+        if windowFull:
             data, self.extBuf = (
                 data[: self.remoteWindowLeft],
                 [[dataType, data[self.remoteWindowLeft :]]],
             )
             self.areWriting = 0
-            self.stopWriting()
         while len(data) > self.remoteMaxPacket:
             self.conn.sendExtendedData(self, dataType, data[: self.remoteMaxPacket])
             data = data[self.remoteMaxPacket :]
@@ -266,8 +291,7 @@ class SSHChannel(log.Logger):
         if data:
             self.conn.sendExtendedData(self, dataType, data)
             self.remoteWindowLeft -= len(data)
-        if self.closing:
-            self.loseConnection()  # try again
+        return windowFull
 
     def writeSequence(self, data):
         """
